@@ -19,6 +19,10 @@ type replSession struct {
 	v       *VirtualMachine
 	globals map[string]any
 	emitted []object.Object
+	// importer, when set before the first piece, serves import statements
+	importer interface {
+		Import(ctx context.Context, name string) (*object.Module, error)
+	}
 }
 
 func newReplSession(env *scriptEnv) *replSession {
@@ -57,7 +61,11 @@ func (s *replSession) eval(src string) (object.Object, error, string) {
 		return nil, err, "compile"
 	}
 	if s.v == nil {
-		s.v = New(code, WithGlobals(s.globals))
+		if s.importer != nil {
+			s.v = New(code, WithGlobals(s.globals), WithImporter(s.importer))
+		} else {
+			s.v = New(code, WithGlobals(s.globals))
+		}
 	}
 	if err := s.v.Run(ctx); err != nil {
 		s.v.SetIP(code.InstructionCount())
